@@ -209,7 +209,10 @@ func (p *Packer) packWalkFn(root, src, dst string, tarW *tar.Writer, meta *Meta,
 		// dereferenced directory that is not where it lies on disk, and it
 		// is the position inside the slug that ignore rules and symlink
 		// targets are judged by.
-		archivePath := strings.Replace(path, src, dst, 1)
+		// src is a symlink target as written on disk, so it need not be a
+		// clean path, while path always is: the position is derived from the
+		// relative path rather than by replacing one spelling by the other.
+		archivePath := filepath.Join(dst, subpath)
 		subpath, err = filepath.Rel(root, archivePath)
 		if err != nil {
 			return fmt.Errorf("failed to get relative path for file %q: %w", path, err)
